@@ -99,7 +99,9 @@ def make_case(rng, cid, scheme, tier, opts=None):
     if scheme in ("marlin", "sonic"):
         D = opts.get("D") or rng.choice([1, 2, 3, rng.randint(2, 40 if big else 16), rng.randint(2, 40 if big else 16)])
         s = rng.randint(1, D)
-        sh = rng.randint(0, min(D, 4)) if rng.random() < 0.8 else 0
+        sh = rng.randint(0, min(D, opts.get("sh_max", 4))) if rng.random() < 0.8 else 0
+        if opts.get("sh_max") and D >= 3:
+            sh = max(sh, rng.randint(2, min(D, opts["sh_max"])))
         if opts.get("bounds", True) and rng.random() < 0.7:
             k = rng.randint(1, 3)
             bounds_list = [rng.randint(1, s) for _ in range(k)]
@@ -128,6 +130,9 @@ def make_case(rng, cid, scheme, tier, opts=None):
         D = 1 << 10
         s = rng.randint(1, 96 if big else 40)
         sh = 0
+    if scheme in ("ligero_uni", "ligero_ml", "brakedown_ml") and rng.random() < 0.5:
+        # parameters other than the hard-wired defaults: (security level, inverse rate, well-formedness check)
+        c.set("lig", rng.choice([128, 128, 80, 100]), rng.choice([4, 2, 4, 8]), rng.choice([0, 0, 1]))
     c.set("max_degree", D).set("num_vars", num_vars if num_vars is not None else "none").set("setup_seed", rng.randrange(2 ** 63))
     c.set("supported_degree", s).set("supported_hiding", sh)
     c.set("bounds", bounds_list if bounds_list else "none")
@@ -144,7 +149,7 @@ def make_case(rng, cid, scheme, tier, opts=None):
         hiding = "none"
         if scheme in UNIVARIATE:
             maxlen = s + 1
-            if scheme in HAS_BOUNDS and bounds_list and rng.random() < 0.6:
+            if scheme in HAS_BOUNDS and bounds_list and rng.random() < opts.get("bound_p", 0.6):
                 b = rng.choice(bounds_list)
                 maxlen = min(maxlen, b + 1)
                 bound = b
@@ -155,7 +160,7 @@ def make_case(rng, cid, scheme, tier, opts=None):
             coeffs, shape = _poly_pst13(rng, p, num_vars, s)
         if scheme == "hyrax":
             hiding = "none"
-        elif scheme in HIDING and opts.get("hiding", True) and rng.random() < 0.6:
+        elif scheme in HIDING and opts.get("hiding", True) and rng.random() < opts.get("hiding_p", 0.6):
             if scheme in ("marlin", "sonic"):
                 hmax = sh if bound == "none" else min(sh, bound)
                 hiding = rng.randint(1, hmax) if hmax >= 1 else "none"
@@ -437,6 +442,11 @@ def add_mutations(rng, c, profile):
             if profile in ("c01",):
                 vp = list(range(n)); rng.shuffle(vp)
                 put(t, "vperm", vp, "accept")
+            if profile in ("c17",):
+                # a query for a polynomial whose commitment is not supplied / whose evaluation is missing
+                put(t, "drop_eval", [rng.randrange(nkeys)], "reject")
+                used = sorted(set(i for i, _, _ in op["qs"]))
+                put(t, "drop_comm", [rng.choice(used)], "reject")
             if profile in ("c11",):
                 if any(not c.meta["const"][i] for i, _, _ in op["qs"]):
                     put(t, "sponge_pre", [rf_uniform(rng, p)], "reject")
@@ -503,8 +513,62 @@ def inject_bound_violation(rng, c):
     return kind
 
 
+def make_domain_case(rng, cid, scheme, tier):
+    """a request outside the scheme's domain at setup or trim (C17)"""
+    c = make_case(rng, cid, scheme, tier, {"known_srs": False})
+    D = int(c.fields["max_degree"][0])
+    kinds = {"marlin": ["setup_degree_zero", "trim_degree_gt_max", "trim_bound_gt_supported", "trim_hiding_gt_max"],
+             "sonic": ["setup_degree_zero", "trim_degree_gt_max", "trim_bound_gt_supported"],
+             "pst13": ["setup_degree_zero", "setup_no_vars", "setup_zero_vars", "trim_degree_gt_max"],
+             "ipa": ["trim_degree_gt_max"],
+             "hyrax": ["setup_odd_vars", "setup_no_vars"]}[scheme]
+    kind = rng.choice(kinds)
+    stage = "setup" if kind.startswith("setup") else "trim"
+    if kind == "setup_degree_zero":
+        c.set("max_degree", 0).set("supported_degree", 0)
+    elif kind == "setup_no_vars":
+        c.set("num_vars", "none")
+    elif kind == "setup_zero_vars":
+        c.set("num_vars", 0)
+    elif kind == "setup_odd_vars":
+        c.set("num_vars", rng.choice([1, 3, 5]))
+    elif kind == "trim_degree_gt_max":
+        if scheme == "ipa":
+            Deff = (1 << D.bit_length()) - 1 if (D + 1) & D else D
+            c.set("supported_degree", Deff + 1 + rng.randint(0, 3))
+        else:
+            c.set("supported_degree", D + rng.randint(1, 3))
+    elif kind == "trim_bound_gt_supported":
+        s = int(c.fields["supported_degree"][0])
+        c.set("bounds", [s + rng.randint(1, 3)] + ([rng.randint(1, s)] if rng.random() < 0.5 else []))
+    elif kind == "trim_hiding_gt_max":
+        c.set("supported_hiding", D + rng.randint(1, 3))
+    c.meta["in_domain"] = False
+    c.meta["refuse_stage"] = stage
+    c.meta["refuse_kind"] = kind
+    c.meta["shapes"] = ["%s:domain:%s" % (scheme, kind)]
+    c.set("nops", 0)
+    c.meta["ops"] = []
+    c.meta["muts"] = []
+    return c
+
+
 def gen(rng, tier, profile, count, schemes=ALL):
     cases = []
+    if profile == "c17domain":
+        for k in range(count):
+            scheme = ("marlin", "sonic", "pst13", "ipa", "hyrax")[k % 5]
+            cases.append(make_domain_case(rng, "c17d-%s-%d" % (scheme, k), scheme, tier))
+        return cases
+    if profile == "c04domain":     # keys must not be trimmed for bounds above the supported degree
+        for k in range(count):
+            scheme = ("marlin", "sonic")[k % 2]
+            while True:
+                c = make_domain_case(rng, "c04d-%s-%d" % (scheme, k), scheme, tier)
+                if c.meta["refuse_kind"] == "trim_bound_gt_supported":
+                    break
+            cases.append(c)
+        return cases
     if profile == "c04":
         schemes = ("marlin", "sonic", "ipa")
     if profile == "c07":
@@ -512,8 +576,10 @@ def gen(rng, tier, profile, count, schemes=ALL):
     for k in range(count):
         scheme = schemes[k % len(schemes)]
         cid = "%s-%s-%d" % (profile, scheme, k)
-        c = make_case(rng, cid, scheme, tier)
+        c = make_case(rng, cid, scheme, tier, {"hiding_p": 0.85, "bound_p": 0.8, "sh_max": 6} if profile == "c07" else None)
         if profile == "c04" and rng.random() < 0.3:
+            inject_bound_violation(rng, c)
+        if profile == "c17" and scheme in ("marlin", "sonic", "ipa") and rng.random() < 0.5:
             inject_bound_violation(rng, c)
         if profile == "c07":
             c.set("c07", 1)
